@@ -17,7 +17,7 @@ TReset == /\ Step("reset")
 \* Add / AddWithID: a fault-free add succeeds and stores every supplied part; a faulty one fails and changes nothing.
 \* An id returned by Add (auto) was never returned before and is not in use.
 TAdd == /\ Step("add")
-        /\ LET faulty == (Ev.fault = "vec" /\ cfg.v) \/ (Ev.fault \in {"meta", "metanil"} /\ cfg.m) IN
+        /\ LET faulty == (Ev.fault = "vec" /\ cfg.v) \/ (Ev.fault \in {"meta", "metanil", "metai32"} /\ cfg.m) IN
            IF ~faulty
            THEN /\ Ev.ok /\ AddOK(Ev.id, Ev.pos, Ev.toks, Ev.meta)
                 /\ (Ev.auto => Ev.id \notin issued)
